@@ -14,7 +14,7 @@ TRUSTED = [
     'text level: proof/StoreText.v proves that the printed raw file is parsed (model/Ini.v) into the store; model/Ini.v restates the line parser of the stdlib configparser as the repository configures it - an assumption about a library outside the repository, compared with it on every run (generated files; the model\'s printer against the printer of the harness, text_store against the raw parser)',
 ]
 PRE = 'From V Require Import lib.Common model.Store model.Duplicates.\nLocal Open Scope nat_scope.\n'
-MUTATIONS = ['none', 'same_line', 'ws_pair', 'ws_pair_other', 'reversed_pair', 'ws_species', 'ws_fs', 'ws_sig', 'sig_other_params', 'dup_section', 'table_dup', 'table_ws_dup',
+MUTATIONS = ['none', 'same_line', 'ws_pair', 'ws_pair_other', 'reversed_pair', 'ws_species', 'ws_fs', 'ws_sig', 'sig_other_params', 'dup_section', 'table_dup', 'table_ws_dup', 'table_ws_dup_apart',
              'table_vs_formula', 'table_vs_builtin', 'ws_option']
 
 ADDABLE = ('same_line', 'ws_pair', 'reversed_pair', 'ws_species', 'ws_fs', 'ws_sig', 'ws_option')
@@ -57,6 +57,11 @@ def mutate(rng, m, kind):
     if kind == 'dup_section':
         s, es = find_section(m, 'Pair'); m['sections'].append((s, [{'key': ('pair', 'Qq', 'Qq'), 'val': 'as.constant 1.0'}])); return m
     s, es = find_section(m, 'Table-Form')
+    if kind == 'table_ws_dup_apart':
+        # the two spellings of one table-form name with another table form between them
+        if es is None: return None
+        m['sections'].append((('Table-Form', 'tf_between', 0), [{'key': ('opt', 'x'), 'val': '0.0 1.0 2.0 3.0 4.5'}, {'key': ('opt', 'y'), 'val': '1.0 2.0 0.5 -0.25 0.0'}]))
+        m['sections'].append((('Table-Form', s[1], (s[2] + rng.randint(1, 3)) % 4), copy.deepcopy(es))); return m
     if kind in ('table_dup', 'table_ws_dup'):
         if es is None: return None
         m['sections'].append((('Table-Form', s[1], s[2] if kind == 'table_dup' else (s[2] + rng.randint(1, 3)) % 4), copy.deepcopy(es))); return m
